@@ -36,6 +36,12 @@ TZ_DEVS = (540, -300, -480)
 PRELUDE = ((H.B(3, 1), "="), (H.B(1, 2), "d"), (H.E(2, 1), "d"), (H.S(2), "d"))
 
 
+# alphabet of the front-end phase (spreadsheet -> parse_ods -> compute_tax): purchases and income that pay their fee in crypto - the parser
+# turns each fee into a fee-typed disposal at the instant of the acquisition, which the lots must cover like any other disposal
+FE_SYMBOLS = [H.B(1, 1), H.B(2, 1, fee="1/4"), H.B(3, 2, fee="1/2"), H.B(2, 1, typ="INTEREST", fee="1/4"), H.S(1), H.S(2), H.S(H.ALL), H.M(2, 1)]
+FE_FIRST = [s for s in FE_SYMBOLS if s[0] in ("B", "E")]
+
+
 def deviations(hist: History, max_dev: Any) -> List[Tuple[History, Dict[str, Any], str]]:
     if max_dev == "tz":
         # one transaction written in another UTC offset, steps of one hour: wall-clock order contradicts the order of the instants
@@ -125,6 +131,8 @@ def plan(tier: str) -> List[Dict[str, Any]]:
             {"name": "one transaction in another UTC offset", "schedules": singles, "steps": ("=", "d"), "depth": 3, "dev": "tz", "group": 2, "from_depth": 2},
             {"name": "another asset computed first with the same engine", "schedules": singles, "steps": ("=", "d"), "depth": 3, "dev": "prelude", "group": 2, "from_depth": 2},
             {"name": "accept / reject with a from-date (filters only hide rows)", "schedules": singles[:2], "steps": ("=", "d"), "depth": 3, "dev": "from", "group": 2, "from_depth": 2},
+            {"name": "front end: crypto-fee acquisitions through parse_ods", "schedules": singles, "steps": ("=", "d"), "depth": 3, "dev": "front", "group": 4, "symbols": "fe"},
+            {"name": "front end, sheet order reversed", "schedules": singles[:2], "steps": ("=", "d"), "depth": 3, "dev": "front", "group": 2, "symbols": "fe", "row_order": "reverse"},
         ]
     return [
         {"name": "single methods", "schedules": singles, "steps": ("=", "d"), "depth": 5, "dev": 0, "group": 1},
@@ -134,6 +142,8 @@ def plan(tier: str) -> List[Dict[str, Any]]:
         {"name": "one transaction in another UTC offset", "schedules": singles, "steps": ("=", "d"), "depth": 4, "dev": "tz", "group": 1, "from_depth": 2},
         {"name": "another asset computed first with the same engine", "schedules": singles + two[:4], "steps": ("=", "d"), "depth": 4, "dev": "prelude", "group": 2, "from_depth": 2},
         {"name": "accept / reject with a from-date (filters only hide rows)", "schedules": singles, "steps": ("=", "d"), "depth": 4, "dev": "from", "group": 2, "from_depth": 2},
+        {"name": "front end: crypto-fee acquisitions through parse_ods", "schedules": singles + two[:4], "steps": ("=", "d"), "depth": 4, "dev": "front", "group": 2, "symbols": "fe"},
+        {"name": "front end, sheet order reversed", "schedules": singles, "steps": ("=", "d"), "depth": 4, "dev": "front", "group": 2, "symbols": "fe", "row_order": "reverse"},
     ]
 
 
@@ -141,7 +151,12 @@ def main(tier: str, budget_s: Optional[float] = None) -> int:
     t0 = time.time()
     budget = budget_s or (240 if tier == "quick" else 3300)
     deadline = t0 + budget
-    total, info, complete = run_phases(plan(tier), generic_worker, FIRST, SYMBOLS, EXTRA, deadline, __name__)
+    phases = plan(tier)
+    total, info, complete = run_phases([ph for ph in phases if ph.get("symbols") != "fe"], generic_worker, FIRST, SYMBOLS, EXTRA, deadline, __name__)
+    t2, i2, c2 = run_phases([ph for ph in phases if ph.get("symbols") == "fe"], generic_worker, FE_FIRST, FE_SYMBOLS, EXTRA, deadline, __name__)
+    total.merge(t2)
+    info += i2
+    complete = complete and c2
     new, matched = common.report(PROP, total.violations)
     coverage = {
         "states": total.get("states"),
